@@ -34,17 +34,18 @@ Inductive pvshape :=
 | PVIfEnabled                     (* only when m.EnableVesting *)
 | PVUnknown.
 
-(** Steps of [ValidateGenesis]; the Boolean says the step is under [if len(data.From) != 0]. *)
+(** Steps of [ValidateGenesis] (helpers inlined); the Boolean says the step is evaluated only when From is not empty. *)
 Inductive gvstep :=
 | GVParams                        (* data.Params.validate() *)
 | GVBech32                        (* sdk.AccAddressFromBech32(data.From) *)
 | GVInitCoins                     (* data.InitReward.Validate() *)
 | GVUnknown (src : bytes).
 
-(** Statements of keeper.InitGenesis in source order. *)
+(** Statements of keeper.InitGenesis in evaluation order, helpers inlined; in the regenerated list each one carries a
+    Boolean: true = executed only when From is not empty (an early `return` on an empty From and a block guarded by
+    `From != ""` give the same list). *)
 Inductive istep :=
-| ISetParams                      (* k.SetParams(ctx, genesisState.GetParams()) *)
-| IStopIfNoFrom                   (* if len(genesisState.From) == 0 { return } *)
+| ISetParams                      (* k.SetParams(ctx, genesisState.Params) *)
 | IParseFrom                      (* AccAddressFromBech32(From); panic(err) *)
 | ISendToModule (module : bytes)  (* bank.SendCoinsFromAccountToModule(from, module, InitReward); panic(err) *)
 | IUnknown (src : bytes).
